@@ -1055,6 +1055,49 @@ def load (r : RecInfo) (o : SideOpts) : Outcome Sideloaded := do
   let marked ← mapO (markerArea r o.padding) o.markers
   pure ⟨r.id, o.fileSubs ++ manual ++ marked.filterMap id, o.fileProtos⟩
 
+/-- `SubRegionAnnotation.from_schema_json(raw, tool, circular_origin=…)`: `raw["tool"] = tool.to_json()`,
+    then `from_json` -/
+def subFromSchema (tool : Tool) (origin : Option Int) : J → Outcome SubAnn
+  | .obj kv => SubAnn.fromJson origin (.obj (("tool", tool.toJson) :: kv))
+  | _ => .refuse .type
+/-- `ProtoclusterAnnotation.from_schema_json` -/
+def protoFromSchema (tool : Tool) (origin : Option Int) : J → Outcome ProtoAnn
+  | .obj kv => ProtoAnn.fromJson origin (.obj (("tool", tool.toJson) :: kv))
+  | _ => .refuse .type
+
+/-- the areas one record entry of an annotation file contributes (`json_record.get(…, [])`) -/
+def areasOfEntry (tool : Tool) (origin : Option Int) (kv : List (String × J)) : Outcome (List SubAnn × List ProtoAnn) := do
+  let subs ← match lookup "subregions" kv with
+    | some (.arr l) => mapO (subFromSchema tool origin) l
+    | none => Outcome.reuse []
+    | _ => Outcome.refuse .type
+  let protos ← match lookup "protoclusters" kv with
+    | some (.arr l) => mapO (protoFromSchema tool origin) l
+    | none => Outcome.reuse []
+    | _ => Outcome.refuse .type
+  pure (subs, protos)
+
+/-- one (validated) annotation file in `load_single_record_annotations`: the tool, then every record
+    entry whose name is one of the record's identifiers, in file order -/
+def loadFile (r : RecInfo) : J → Outcome (List SubAnn × List ProtoAnn)
+  | .obj kv => do
+    let tool ← reqTool kv
+    let entries ← reqArr kv "records"
+    let parts ← mapO (fun e => match e with
+      | .obj ekv =>
+        match lookup "name" ekv with
+        | some (.str n) => if r.hasName n then areasOfEntry tool r.origin ekv else Outcome.reuse ([], [])
+        | none => Outcome.refuse .key
+        | _ => Outcome.refuse .type
+      | _ => Outcome.refuse .type) entries
+    pure (parts.flatMap (·.1), parts.flatMap (·.2))
+  | _ => .refuse .type
+
+/-- all `--sideload` files in the order given: sub-regions and protoclusters accumulate per kind -/
+def loadFiles (r : RecInfo) (files : List J) : Outcome (List SubAnn × List ProtoAnn) := do
+  let parts ← mapO (loadFile r) files
+  pure (parts.flatMap (·.1), parts.flatMap (·.2))
+
 /-- `run_on_record(record, previous_results, options)` -/
 def runOnRecord (r : RecInfo) (o : SideOpts) (previous : Option Sideloaded) : Outcome Sideloaded :=
   match previous with
@@ -1234,6 +1277,32 @@ def dbVersionOfPath (p : String) : Outcome String :=
   else match afterLastPfam parts none with
     | some v => .reuse v
     | none => .refuse .value      -- "pfam" is the last component (IndexError in the code)
+
+/-- `float(component)` for a component made of decimal digits (other spellings are not modelled) -/
+def parseVersionPart (cs : List Char) : Option Nat :=
+  if !cs.isEmpty && cs.all Char.isDigit then some (Nat.ofDigitChars 10 cs 0) else none
+/-- `tuple(map(float, version.split(".")))` -/
+def versionKey (v : String) : Option (List Nat) := (splitGo '.' [] v.toList).mapM parseVersionPart
+/-- Python's tuple comparison -/
+def listLt : List Nat → List Nat → Bool
+  | [], [] => false
+  | [], _ :: _ => true
+  | _ :: _, [] => false
+  | a :: as, b :: bs => decide (a < b) || (a == b && listLt as bs)
+def versionLt (a b : List Nat × String) : Bool := listLt a.1 b.1 || (a.1 == b.1 && decide (a.2 < b.2))
+/-- `path.find_latest_database_version` over the version directories that hold the required file:
+    `sorted(potentials)[-1][1]`; a directory name that is not a version, or no directory at all, is a ValueError -/
+def versionKeys : List String → Option (List (List Nat × String))
+  | [] => some []
+  | v :: vs =>
+    match versionKey v, versionKeys vs with
+    | some k, some r => some ((k, v) :: r)
+    | _, _ => none
+def latestVersion (installed : List String) : Outcome String :=
+  match versionKeys installed with
+  | none => .refuse .value
+  | some [] => .refuse .value
+  | some (k :: ks) => .reuse (ks.foldl (fun best c => if versionLt best c then c else best) k).2
 
 namespace PfamOpts
 /-- the version this module's run uses: its *own* option, `latest` resolved against the database directory -/
